@@ -113,6 +113,13 @@ def run(ctx: C.Ctx):
 
 def _run(ctx: C.Ctx):
     rng = ctx.rng
+    # user-supplied bases with non-orthonormal modes (every sensor count from n_modes up to ALL locations is judged)
+    for idx in range(ctx.scale(15, 150)):
+        fm = recon.gen_custom_model(ctx, rng)
+        if fm is None:
+            continue
+        ctx.count("custom_non_orthonormal_basis")
+        check_model(ctx, fm, 3 * 10 ** 6 + idx)
     for idx in range(ctx.scale(70, 1200)):
         fm = recon.gen_model(ctx, rng, want_tall=True)
         if fm is None:
